@@ -125,7 +125,14 @@ def r17_3(run, model):
                 if a is not None:
                     t = S.norm_ws(run.facts.text(UNI, a["body"]["sp"]))
                     ok = ok and "diagnostics.push(" in t and "Severity::Error" in t
-            run.ob("R17.3", "overload solver|one / none / many", ok, site(UNI, m["sp"]), f"arms: {pats}",
+                    # unconditional: the push is not nested under an if/match inside the arm
+                    pa = S.Parents(a["body"])
+                    pushes = [c for c in S.walk(a["body"]) if c["k"] == "MethodCall" and c["method"] == "push" and "diagnostics" in S.idents(c["recv"])]
+                    cond = [c for c in pushes if any(x["k"] in ("If", "Match") for x in pa.ancestors(c))]
+                    if pushes and len(cond) == len(pushes):
+                        ok = False
+                        why_cond = f"the `{what}` arm reports only under a condition"
+            run.ob("R17.3", "overload solver|one / none / many", ok, site(UNI, m["sp"]), f"arms: {pats}" + (f"; {why_cond}" if "why_cond" in dir() and not ok else ""),
                    witness="two impls match an operator call and the first one found is used")
     if not found:
         raise AnalysisIncomplete("overload solver slice match not found")
@@ -162,6 +169,15 @@ def run(run, model):
     run.try_rule(r17_2, model)
     run.try_rule(r17_3, model)
     run.try_rule(r17_4, model)
+    from rules import c01
+    from lib import passes as P
+    run.rule("R17.7", "every coercion to dyn gets its vtable: the collector that decides which vtable constructors and wrappers are generated "
+                      "visits every sub-term (shared with C01 R01.3, restricted to collect_dyn_requirements)")
+    try:
+        trs = P.discover(model, include_pprint=False)
+        run.try_rule(c01.r01_3, model, trs, (r"collect_dyn_requirements",))
+    except AnalysisIncomplete as e:
+        run.skipped.append({"rule_fn": "r01_3", "reason": str(e)})
     from rules import c03
     run.rule("R17.6", "a coercion to dyn is recorded once per expression: call arguments are type-checked once (shared with C03 R03.11); a second "
                       "pass pushes the ToDyn coercion again and the value is wrapped twice")
